@@ -40,7 +40,15 @@ XLIB_RULES = {
 }
 
 
-RAW_RULES = {"hexint": ("pattern:\n- call:\n  - 0x8\n", [])}     # an unquoted hexadecimal scalar (YAML: the integer 8)
+RAW_RULES = {
+    "hexint": ("pattern:\n- call:\n  - 0x8\n", []),     # an unquoted hexadecimal scalar (YAML: the integer 8)
+    # the same register-capture spelling as capture group 1 and as capture group 2
+    "regcapA": ("pattern:\n- mov:\n  - '%rbx'\n  - '&genreg.64'\n- xor:\n  - '&genreg.32'\n  - '&genreg.32'\n", []),
+    "regcapB": ("pattern:\n- mov:\n  - '&src'\n  - '&genreg.64'\n- xor:\n  - '&genreg.32'\n  - '&genreg.32'\n", []),
+    # one parameterised macro name, two bodies, textually identical call sites
+    "pmacroA": ("macros:\n- name: '@zr'\n  args:\n  - reg\n  pattern:\n  - xor:\n    - reg\n    - reg\npattern:\n- '@zr':\n  reg: '%eax'\n", []),
+    "pmacroB": ("macros:\n- name: '@zr'\n  args:\n  - reg\n  pattern:\n  - mov:\n    - '%rbx'\n    - reg\npattern:\n- '@zr':\n  reg: '%eax'\n", []),
+}
 
 
 def rule_yaml(r):
@@ -171,7 +179,14 @@ def run(prop, tier):
     fresh = {op: fo["events"][0] for op, fo in zip(ops, fresh_obs)}
     for op, e in fresh.items():
         if e["outcome"] != "ok":
-            raise MachineryError(f"operation {op} fails in a fresh process: {e.get('exc')}")
+            if "stream" not in e:
+                # the very first step of a valid operation fails: the universe (or the harness) is wrong
+                raise MachineryError(f"operation {op} fails in a fresh process: {e.get('exc')}")
+            # the stream was produced and a LATER mode of the same operation, in the same fresh process, failed:
+            # repeating an operation does not give the same result
+            report.violation(f"C14_RepeatedOperationFails: {op[0]} on {op[1]} in a fresh process ({e.get('exc')})",
+                             {"kind": "history", "history": [list(op)], "event": e,
+                              "rules": {op[0]: job_rules[rid[op[0]]]["yaml"]}})
 
     def digest(e):
         return {"stream": e.get("stream", ""), "res": e.get("res", {})}
